@@ -61,12 +61,20 @@ def default_plan(tier, scale=1.0):
     mids = ["tap", "branch_cpu", "branch_npu"]
     big = [((1, 32, 32, 16), "int8")]
     perf_ops = ["conv3x3", "dw3x3", "conv1x1", "maxpool2x2", "conv3x3s2", "add_const"]
+    heavy = [((1, 8, 8, 256), "int8"), ((1, 4, 4, 128), "int8")]
+    heavy_ops = ["conv3x3_c72_pc", "conv1x1_c40"]
+    resize_first = [dict(start=([1, 24, 24, 16], "int8"), steps=st) for st in (["resize_nn2", "conv3x3", "conv3x3"], ["resize_nn2", "conv3x3", "dw3x3"], ["resize_nn2", "dw3x3"],
+                                                                               ["resize_nn2", "conv3x3"], ["conv1x1", "resize_nn2", "conv3x3"])]
     if tier == "quick":
         return [("G1xC8", nets.STARTS_Q, nets.SIGMA_Q, 1, "c8"),
+                ("resizefirstxCR", resize_first, "cR"),
+                ("bigweightsxCW", histories(heavy, heavy_ops, 1) + histories(heavy[:1], heavy_ops, 2), "cW"),
                 ("G2xC1", nets.STARTS_Q[:2], nets.SIGMA_Q, 2, "c2"),
                 ("fork3xC2", fork_histories(nets.STARTS_Q[:2], nets.SIGMA_C + ["cpu_neg"], mids, nets.SIGMA_C + ["cpu_neg"]), "c2"),
                 ("perfcascade3xCP", histories(big, perf_ops, 3), "cP")]
     return [("G1xC24", nets.STARTS_T, nets.SIGMA_T, 1, "c24"),
+            ("resizefirstxCR", resize_first + [dict(start=([1, 16, 16, 8], "int8"), steps=h["steps"]) for h in resize_first], "cR"),
+            ("bigweightsxCW", histories(heavy, heavy_ops, 1) + histories(heavy, heavy_ops, 2), "cW"),
             ("G2xC8", nets.STARTS_Q, nets.SIGMA_Q, 2, "c8"),
             ("chain3xC4", nets.STARTS_Q[:2], nets.SIGMA_C, 3, "c4"),
             ("perfcascade3xCP", histories(big + [((1, 48, 48, 8), "int8")], nets.SIGMA_C, 3), "cP"),
